@@ -70,6 +70,15 @@ def configs(tier, seed):
             out.append({"name": f"pipeline-{'-'.join(order)}-{m}", "kind": "pipeline",
                         "pipeline": {"name": f"pipeline-{'-'.join(order)}-{m}", "mcs": {"m1": {"labels": ["s1", "s2"]}}, "tol": 0.1, "method": m,
                                      "datasets": [dict(dsets[d]) for d in order], "groups": {"default": {"link_clp": True}}}})
+    # mixed index dependence: an index independent dataset stacked before / after an index dependent one (per-index matrices of the
+    # later datasets must be taken at *their own* aligned point), shared and private clp labels
+    mixed = {"m1": {"labels": ["s1", "s2"]}, "m2": {"labels": ["s2", "s3"], "idx": True}}
+    mc_of = {"da": ["m1"], "db": ["m2"], "dc": ["m1", "m2"]}
+    for order in (("da", "db"), ("db", "da"), ("da", "dc", "db")):
+        out.append({"name": f"pipeline-mixed-index-{'-'.join(order)}", "kind": "pipeline",
+                    "pipeline": {"name": f"pipeline-mixed-index-{'-'.join(order)}", "mcs": mixed, "tol": 0.1, "method": "nearest",
+                                 "datasets": [dict(dsets[d], mc=mc_of[d], weight=False) for d in order],
+                                 "groups": {"default": {"link_clp": True}}}})
     for order in (("da", "db"), ("db", "da")):
         out.append({"name": f"pipeline-model-weight-{'-'.join(order)}", "kind": "pipeline",
                     "pipeline": {"name": f"pipeline-model-weight-{'-'.join(order)}", "mcs": {"m1": {"labels": ["s1", "s2"]}}, "tol": 0.1,
